@@ -46,6 +46,9 @@ ONE_D = [
     {"k": "Reshape", "c": {"k": "Planar", "dim": 1, "cond": None, "slope": 0.1}, "shape": []},
     {"k": "Reshape", "c": {"k": "BNAF", "dim": 1, "cond": None, "depth": 1, "bd": 2}, "shape": []},
     {"k": "Reshape", "c": {"k": "MAF", "dim": 1, "cond": 2, "tr": "rqs"}, "shape": []},
+    # conditional block network with TWO hidden layers, both orientations (2-D versions of these are not resolvable by quadrature)
+    {"k": "Reshape", "c": {"k": "BNAF", "dim": 1, "cond": 2, "depth": 2, "bd": 2}, "shape": []},
+    {"k": "Invert", "c": {"k": "Reshape", "c": {"k": "BNAF", "dim": 1, "cond": 2, "depth": 2, "bd": 2}, "shape": []}},
 ]
 
 
@@ -64,7 +67,7 @@ def enumerate_cases(tier, seed):
     for s in ONE_D:
         for lvl in (1, 2):
             cases.append({"id": f"1d|{g.canon(s)}|level={lvl}", "leg": "1d", "spec": s, "level": lvl, "x64": True, "seed": seed, "tier": tier})
-    cases.sort(key=lambda c: (0 if c.get("factory") == "bnaf" else 1, c["id"]))
+    cases.sort(key=lambda c: (0 if str(c.get("factory", "")).startswith("bnaf") else 1, c["id"]))
     return cases
 
 
@@ -143,12 +146,12 @@ def run_case(case):
         fi = c01.factory_info(case["factory"], case["invert"], case["cond"])
         tag = f"factory:{case['factory']}|invert={int(case['invert'])}|cond={case['cond']}"
         # BNAF's inverted LeakyTanh tails stretch by ~100x per layer: a gentler parameter state keeps the mass on a resolvable grid
-        dist = c01.build_factory(case["factory"], case["invert"], case["cond"], seed, case["level"], scale=0.15 if case["factory"] == "bnaf" else 0.5, layers=1 if case["factory"] == "bnaf" else 2)
+        dist = c01.build_factory(case["factory"], case["invert"], case["cond"], seed, case["level"], scale=0.15 if case["factory"].startswith("bnaf") else 0.5, layers=1 if case["factory"].startswith("bnaf") else 2)
         conds = [None] if case["cond"] is None else [jnp.asarray([0.5, -1.0]), jnp.asarray([-2.0, 1.5])]
         G = (501 if case["tier"] == "quick" else 1201)
         if fi.num_inv:
             G = 601 if case["tier"] == "quick" else 901  # one bisection search per grid point
-        elif case["factory"] == "bnaf":
+        elif case["factory"].startswith("bnaf"):
             G = 1201 if case["tier"] == "quick" else 2401  # heavy-tailed (inverted LeakyTanh tails stretch ~100x per layer)
         for ci, c in enumerate(conds):
             smp = None
